@@ -172,7 +172,7 @@ Definition run_task (ph : list phase) (fin : pout) (ops : list op)
 Inductive anycase :=
 | CFut (k : kind) (p : list pout) (o : outcome) (ops : list op)
 | CTask (ph : list phase) (fin : pout) (ops : list op)
-| CBatch (its : list ispec) (fin : pout) (ops : list bop).   (* a batch and its items as futures: BatchFut.v *)
+| CBatch (its : list ispec) (fin : pout) (cs : list (nat * outcome)) (ops : list bop).   (* a batch and its items as futures: BatchFut.v *)
 
 Inductive anyout :=
 | OutFut (r : list res * list (Z * outcome) * Z * list Z)
@@ -183,5 +183,5 @@ Definition run_any (c : anycase) : anyout :=
   match c with
   | CFut k p o ops => OutFut (Futures.run_case k p o ops)
   | CTask ph fin ops => OutTask (run_task ph fin ops)
-  | CBatch its fin ops => OutBatch (run_batch its fin ops)
+  | CBatch its fin cs ops => OutBatch (run_batch its fin cs ops)
   end.
